@@ -208,6 +208,12 @@ def run(ctx):
                     for what, B in {"array of one": A[:1], "1x1": A[:1].reshape(1, 1), "column": A.reshape(-1, 1), "row": A.reshape(1, -1), "transposed": A.reshape(2, -1).T, "strided": A[::2], "reversed": A[::-1], "list": list(ys[:3])}.items():
                         term.tsukamoto(B)
                         ctx.hit("y form:" + what)
+                    # degrees read from a single-precision data set (they are what they are, the inverse is computed in double
+                    # precision like everything else); a batch without elements
+                    mid = [y for y in ys if 1e-3 * spec["height"] < y < 0.999 * spec["height"]]
+                    for what, B in {"float32 batch": np.array(mid, dtype=np.float32), "float16 batch": np.array([y for y in mid if y > 0.01], dtype=np.float16), "empty batch": np.empty(0), "empty selection": A[A < 0], "empty 2-D": np.empty((0, 3))}.items():
+                        term.tsukamoto(B)
+                        ctx.hit("y form:" + what)
             except Exception:
                 ctx.hit("event:tsukamoto raised in the workload (judged by the monitor)")
             if i < 12 and i % 2 == 0:
@@ -252,6 +258,28 @@ def run(ctx):
                     term.tsukamoto(buf)
                 except Exception:
                     pass
+        # near twins: terms of one class and one name whose parameters agree to the third decimal (a fine re-tuning, the `wide` of
+        # two variables on a millimetre scale) - each has its own inverse
+        for i, rnd in ctx.cases("near twins", len(kinds) * ctx.scale(6, 120)):
+            kind = kinds[i % len(kinds)]
+            spec = G.shape_term(rnd, "wide", -2.0, 3.0, kind=kind, d=3, degenerate=False)
+            first = G.build_term(fl, spec)
+            ys = np.array(y_values(rnd, spec["height"])[:10])
+            try:
+                first.tsukamoto(ys)
+                first.tsukamoto(float(ys[0]))
+                for step in (1e-4, -3e-4, 4e-4):
+                    twin = dict(spec, params=[p + step * (k + 1) for k, p in enumerate(spec["params"])])
+                    second = G.build_term(fl, twin)
+                    second.tsukamoto(ys * 0.999)
+                    second.tsukamoto(float(ys[1]) * 0.999)
+                    # ... and the same object re-tuned in place by less than its printed text shows
+                    for attr, v in zip(R.ATTRS[kind], twin["params"]):
+                        setattr(first, attr, v)
+                    first.tsukamoto(ys * 0.999)
+                ctx.hit("workload:terms that agree to the third decimal")
+            except Exception:
+                ctx.hit("event:tsukamoto raised in the workload (judged by the monitor)")
         others = [k for k in R.REF if k not in R.MONOTONIC]
         for i, rnd in ctx.cases("refusal", len(others) + 6):
             if i >= len(others) + 3:
@@ -287,6 +315,7 @@ def run(ctx):
         ctx.require(f"piece:{k}:y<h/2:{d}", f"piece:{k}:y==h/2:{d}", f"piece:{k}:y>h/2:{d}")
     for k in ("Ramp", "Arc", "Concave", "Sigmoid"):
         ctx.require(f"piece:{k}:y<h/2:incr", f"piece:{k}:y<h/2:decr")
+    ctx.require("workload:terms that agree to the third decimal", "y form:float32 batch", "y form:empty batch")
     ctx.require("refused:Triangle", "refused:Constant", "refused:Function", "refused:Linear", "hook:Term.tsukamoto(default)")
 
 
